@@ -16,6 +16,7 @@ func init() {
 }
 
 func runC05(e *Engine, r *Report) {
+	defer ruleSessionTableOnly(e, r)
 	const smT = "(*internal/rsm.StateMachine)."
 	mgrUpdate := r.needMethod("internal/rsm", "IManagedStateMachine", "Update")
 	reg := r.need("(*internal/rsm.SessionManager).ClientRegistered")
